@@ -107,6 +107,9 @@ func (p Precompile) Run(evm *vm.EVM, contract *vm.Contract, readOnly bool) (bz [
 	// It avoids panics and returns the out of gas error so the EVM can continue gracefully.
 	defer cmn.HandleGasError(ctx, contract, initialGas, &err)()
 
+	// see the ERC-20 precompile: the SDK messages run on a branch written back only on success
+	ctx, writeCache := ctx.CacheContext()
+
 	switch {
 	case method.Type == abi.Fallback,
 		method.Type == abi.Receive,
@@ -130,6 +133,8 @@ func (p Precompile) Run(evm *vm.EVM, contract *vm.Contract, readOnly bool) (bz [
 	if !contract.UseGas(cost) {
 		return nil, vm.ErrOutOfGas
 	}
+
+	writeCache()
 
 	return bz, nil
 }
